@@ -252,3 +252,68 @@ def execute(jobs, first, switch_at, cold=True):
 if __name__ == '__main__':
     if sys.argv[1] == 'cold':
         print(json.dumps(table_state()))
+
+
+# ---------------------------------------------------------------------------------------------
+# inventory of process-global state touched by a translation (justifies the choice of scheduling points)
+
+def _snapshot_globals():
+    """(module or class qualified name, attribute) -> structural fingerprint, for every module-level and class-level
+    attribute of excel2pycl.* that holds a mutable container."""
+    import types
+    out = {}
+
+    def fp(v, depth=0):
+        if isinstance(v, (list, tuple)):
+            return (type(v).__name__, len(v), tuple(fp(x, depth + 1) for x in v[:50]) if depth < 2 else None)
+        if isinstance(v, dict):
+            return ('dict', len(v), tuple(sorted(repr(k)[:40] for k in list(v)[:50])))
+        if isinstance(v, set):
+            return ('set', len(v))
+        if isinstance(v, type):
+            return ('class', v.__name__)
+        return (type(v).__name__, repr(v)[:60] if isinstance(v, (int, str, bool, float, type(None))) else id(v))
+
+    for mname, mod in list(sys.modules.items()):
+        if not mname.startswith('excel2pycl') or mod is None:
+            continue
+        for k, v in list(vars(mod).items()):
+            if k.startswith('__'):
+                continue
+            if isinstance(v, (list, dict, set)):
+                out[(mname, k)] = fp(v)
+            if isinstance(v, type) and v.__module__ == mname:
+                for ck, cv in list(vars(v).items()):
+                    if ck.startswith('__'):
+                        continue
+                    if isinstance(cv, (list, dict, set, bool, int, str, type(None))):
+                        out[(mname + '.' + v.__name__, ck)] = fp(cv)
+    return out
+
+
+def inventory():
+    """Run in a FRESH interpreter: which global attributes differ after one translation, and which after a second
+    translation of another workbook compared with the first."""
+    from mc import corpus
+    import importlib
+    import excel2pycl
+    token_classes()
+    # lazily imported translators would look like changes: import every module of the package first
+    root = os.path.dirname(os.path.abspath(excel2pycl.__file__))
+    for dirpath, _, files in os.walk(root):
+        for f in files:
+            if f.endswith('.py') and f != '__init__.py':
+                rel = os.path.relpath(os.path.join(dirpath, f[:-3]), os.path.dirname(root))
+                importlib.import_module(rel.replace(os.sep, '.'))
+    before = _snapshot_globals()
+    D.translate([corpus.sheet('D')])
+    after1 = _snapshot_globals()
+    D.translate([('S', {'A1': 1, 'B1': '=IF(A1>0,SUM(A1,2),"x")&TEXT(A1,"0")'}), ('T', {'A1': '=S!B1'})])
+    after2 = _snapshot_globals()
+    ch1 = sorted(f'{a}.{b}' for (a, b) in after1 if before.get((a, b)) != after1[(a, b)])
+    ch2 = sorted(f'{a}.{b}' for (a, b) in after2 if after1.get((a, b)) != after2[(a, b)])
+    return {'changed_by_first_translation': ch1, 'changed_by_second_translation': ch2}
+
+
+if __name__ == '__main__' and len(sys.argv) > 1 and sys.argv[1] == 'inventory':
+    print(json.dumps(inventory()))
